@@ -122,7 +122,10 @@ func (p *Peer) swap() (swapped message.Frame) {
 
 // processSendQueue flushes the current frame to the remote server
 func (p *Peer) processSendQueue() {
-	if len(p.frame) == 0 {
+	p.Lock()
+	empty := len(p.frame) == 0
+	p.Unlock()
+	if empty {
 		return
 	}
 
